@@ -3,7 +3,7 @@
 import os
 root = os.path.join(os.path.dirname(os.path.dirname(os.path.abspath(__file__))), 'lean')
 mods = []
-for d in ('Base', 'Gen', 'Model', 'Lemmas', 'Props', 'Drivers'):
+for d in ('Base', 'Gen', 'Model', 'Lemmas', 'Props'):  # Drivers each define a top-level main: built as separate targets
     p = os.path.join(root, 'Kapture', d)
     if os.path.isdir(p):
         for fn in sorted(os.listdir(p)):
